@@ -745,6 +745,25 @@ def reserved_sweep(g, times):
                 i = g.emit('identifier_w', [w]); g.emit('as_type_id', [i]); g.emit('label', [i]); g.emit('suffix', [i])
 
 
+def pool_rollover(g, n_words):
+    """More distinct spellings than one string pool holds (1 MiB = 65536 header slots), then every one of them requested again
+    in another order: the word that happens to open a new pool, and its neighbours, must still be the Identifier of their spelling."""
+    rng = g.rng
+    seen, ws = set(g.words), []
+    while len(ws) < n_words:
+        w = bytes(rng.choice(b'abcdefghijklmnopqrstuvwxyz_0123456789') for _ in range(rng.randint(9, 24))) + b'%d' % len(ws)
+        if w not in seen:
+            seen.add(w); ws.append(w)
+    for w in ws:
+        g.emit('identifier_w', [w], False)
+    again = list(ws)
+    rng.shuffle(again)
+    for k, w in enumerate(again):
+        g.emit('identifier_w' if k % 3 else 'linkage_w', [w], False)
+        if k % 3 == 0: g.emit('identifier_w', [w], False)
+    g.stats['_pool_rollover_words'] = len(ws)
+
+
 def qualifier_sweep(g, max_steps, operands):
     """All 7 non-empty sets, all ordered splits into <= max_steps successive requests, over the given operands (C11)."""
     def splits(q, k):
@@ -769,6 +788,19 @@ def qualifier_sweep(g, max_steps, operands):
                         n += 1
                         if n % 3 == 0: g.emit('qualified', [0, cur], False)       # the empty set is refused over a qualified operand too
                         if n % 7 == 0: g.observe_some(cur)
+    # qualifier sets are opaque bit sets as wide as a pointer: coordinates beyond const / volatile / restrict (vendor qualifiers) merge,
+    # commute and are refused when empty exactly like the three standard ones
+    ext = [1 << 3, 1 << 31, 1 << 32, 1 << 40, 1 << 63, (1 << 32) | 1, (1 << 63) | (1 << 3) | 2]
+    for t in operands[:6]:
+        for a in ext:
+            for b in ext + [1, 2, 4, 7]:
+                x = g.emit('qualified', [a, t], False)
+                y = g.emit('qualified', [b, x], False) if x is not None else None
+                g.emit('qualified', [a | b, t], False)
+                z = g.emit('qualified', [b, t], False)
+                if z is not None: g.emit('qualified', [a, z], False)
+                if y is not None and n % 5 == 0: g.observe_some(y)
+                n += 1
     g.stats['_qualifier_chains'] = g.stats.get('_qualifier_chains', 0) + n
 
 
@@ -782,6 +814,8 @@ def build_histories(pid, tier, seed, words, builtins):
         if pid == 'C04' and i % 2 == 0:
             g.prologue()
             reserved_sweep(g, 10 if tier == 'quick' else 20)
+        if pid == 'C04' and i == 1:
+            pool_rollover(g, 42000 if tier == 'quick' else 130000)
         if pid == 'C11' and i == 0:
             g.prologue()
             # one operand of every unqualified kind
